@@ -2,3 +2,4 @@ import ProfiVerif.Props.C09
 import ProfiVerif.Props.C10
 import ProfiVerif.Props.C16
 import ProfiVerif.Props.C12
+import ProfiVerif.Props.C17
